@@ -157,7 +157,7 @@ func (o *c06) Step(r *StepRec) []Violation {
 	for _, cid := range sortedKeys(pre.Ctxs) {
 		p0 := pre.Ctxs[cid]
 		if p1, ok := post.Ctxs[cid]; ok {
-			if !sameAddrs(provHexes(p0), provHexes(p1)) || !p0.ServiceFeeCap.IsEqual(p1.ServiceFeeCap) || p0.Timeout != p1.Timeout || p0.ResponseThreshold != p1.ResponseThreshold {
+			if !sameAddrs(provHexes(p0), provHexes(p1)) || p0.ServiceFeeCap.String() != p1.ServiceFeeCap.String() || p0.Timeout != p1.Timeout || p0.ResponseThreshold != p1.ResponseThreshold {
 				o.fail("c06:config", "end-block changed the providers/cap/timeout/threshold of context %s: providers %v -> %v", short(cid), shortAll(provHexes(p0)), shortAll(provHexes(p1)))
 			}
 		}
